@@ -794,3 +794,52 @@ C05_SCORE = dict(
     raises=[("plate_predictions and plate_variances must have the same shape", 24), ("plates to be scored", 28)],
 )
 ALL += [C05_SCORE]
+
+# the call of the vectorized kernel with exactly the wrapper's own arguments handed on; idxs = the recorded answer of the one
+# rng.choice call the kernel makes (its index-to-triple run is linked by C05_KERNEL_TRIPLES, its tensor expressions by the
+# correspondence only)
+_KERNEL = ("dbal_fast_gauss_scoring_vectorized(predictions=__p, variances=__v, distance_matrix=distance_matrix, rng=rng, "
+           "max_combos=max_combos, distance_factor=distance_factor)",
+           "!kernel_checked orc {p} {v} distance_matrix' distance_factor' idxs", "list ext", {"p": "arr3", "v": "arr3n"})
+_C05_WRAP = dict(
+    file="src/batchie/scoring/gaussian_dbal.py", out="SrcDbal.v", imports="Lib.Num Model.Dbal", overload=True,
+    pyparams=["per_plate_predictions", "variances", "distance_matrix", "rng", "max_combos", "distance_factor"],
+    pydefaults=["5000", "1.0"], returns="list ext",
+)
+C05_HETERO = dict(
+    _C05_WRAP, func="dbal_fast_gaussian_scoring_heteroscedastic", name="src_hetero",
+    params=[("orc", "oracle"), ("per_plate_predictions", "list arr2"), ("variances", "list arr2"), ("distance_matrix", "arr2"),
+            ("distance_factor", "qc"), ("idxs", "list Z")],
+    vars={"plate_predictions": "arr2", "plate_variances": "arr2", "padded_predictions": "arr3", "padded_variances": "arr3n"},
+    prims=[_ZIP_A2, _SHAPE_NE, _PAD0, _PADN, _KERNEL],
+    raises=[("plate_predictions and plate_variances must have the same shape", 24)],
+)
+C05_HOMO = dict(
+    _C05_WRAP, func="dbal_fast_gaussian_scoring_homoscedastic", name="src_homo",
+    params=[("orc", "oracle"), ("per_plate_predictions", "list arr2"), ("variances", "arr2"), ("distance_matrix", "arr2"),
+            ("distance_factor", "qc"), ("idxs", "list Z")],
+    vars={"plate_predictions": "arr2", "padded_predictions": "arr3", "variances_ragged_array": "list arr2", "idx": "Z",
+          "plate_variances": "list qc", "n_thetas": "Z", "n_experiments": "Z", "padded_variances": "arr3n"},
+    prims=[("len(__l)", "Z.of_nat (length {l})", "Z"),
+           ("__a.shape[0]", "dim0 {a}", "Z", {"a": "arr2"}),
+           ("__a.shape[1]", "dim1 {a}", "Z", {"a": "arr2"}),
+           ("__a.shape[0]", "Z.of_nat (length {a})", "Z", {"a": "list qc"}),          # a 1-d array
+           ("__a[__i]", "!list_get {a} {i}", "list qc", {"a": "arr2", "i": "Z"}),       # a row of a 2-d array
+           ("__v[:, None] * np.ones((__n, __e))", "!np_col_times_ones {v} {n} {e}", "arr2", {"v": "list qc", "n": "Z", "e": "Z"}),
+           _PAD0, _PADN, _KERNEL],
+    raises=[("must have the same n_plates dimension", 25), ("must have the same n_thetas dimension", 26)],
+)
+# pad_ragged_arrays_to_dense_array for arrays of ANY element type A (floats; NaN is an element like any other)
+C05_PAD = dict(
+    file="src/batchie/scoring/gaussian_dbal.py", func="pad_ragged_arrays_to_dense_array", out="SrcDbal.v",
+    imports="Lib.Num Model.Dbal", name="src_pad", pyparams=["arrays", "pad_value"], pydefaults=["0.0"],
+    params=[("A", "Type"), ("arrays", "list list list A"), ("pad_value", "A")], returns="list list list A",
+    vars={"max_sizes": "(Z * Z)", "result": "list list list A", "i": "Z", "array": "list list A"},
+    prims=[("np.array(__a.shape)", "shape2z {a}", "(Z * Z)", {"a": "list list A"}),
+           ("np.max(__l, axis=0)", "!np_max_axis0 {l}", "(Z * Z)", {"l": "list (Z * Z)"}),
+           # pad_value * ones(shape): the constant array (x * 1.0 = x for every float, NaN included); dtype of the first array
+           ("__v * np.ones((len(__l), *__m), dtype=__l[0].dtype)", "np_full3 {v} (length {l}) {m}", "list list list A",
+            {"v": "A", "m": "(Z * Z)"})],
+    assign_effects=[("result[__i, :__a.shape[0], :__a.shape[1]] = __a", "result'", "set_block {state} {i} {a}")],
+)
+ALL += [C05_PAD, C05_HETERO, C05_HOMO]
